@@ -44,12 +44,20 @@ def scenario(rng, i):
     # create adds a generation, so verify / diff come first in most scenarios
     if rng.random() < 0.7:
         order.sort(key=lambda s: s["op"] == "create")
+    if i % 5 == 2:
+        # the named-files form, with a file or a whole folder named: an altered file below what is named is reported all the same
+        edited = [st["path"] for st in steps if st["op"] == "set"]
+        cand = [e.rsplit("/", 1)[0] for e in edited if "/" in e] + edited + gen.all_dirs(cur)
+        present = set(gen.all_dirs(cur)) | set(gen.all_files(cur))
+        cand = [c for c in cand if c in present]
+        if cand:
+            order.insert(rng.randrange(len(order) + 1), {"op": "create", "fmts": gen.gen_fmts(rng), "sf": [cand[0] if rng.random() < 0.7 else rng.choice(cand)]})
     steps += order
     return {"tree": tree, "steps": steps}
 
 
 RULE = ("sealed trees (flat / nested, 1-3 generations, with and without ignore patterns) followed by 0-3 mutations (same-size bit flip with the mtime "
-        "kept, rewrite, append, delete file / empty dir / (one scenario in six) a folder with its content, add file, touch) and then verify, diff, create (two scenarios in seven with -dr, one of them on a history sealed with -n); oracle: exit code and named paths derived from "
+        "kept, rewrite, append, delete file / empty dir / (one scenario in six) a folder with its content, add file, touch) and then verify, diff, create (one scenario in five also create -sf naming an edited file or a folder above it; two scenarios in seven with -dr, one of them on a history sealed with -n); oracle: exit code and named paths derived from "
         "the generations read back independently. Non-trivial: at least one mutation step.")
 # recorded inputs that run first on every run: a folder recorded without directory hashes (-n) vanishes (renamed) and create -dr
 # has new paths to compare with -- the rename detection must not end in an internal error (it did: AttributeError on None)
@@ -61,6 +69,10 @@ CORPUS = [{"tree": {"keep.bin": {"f": "00"}, "Clips": {"d": {"c%02d.mov" % k: {"
            # the removed paths are still named
            "steps": [{"op": "create", "fmts": ["md5"]}, {"op": "set", "path": "a.bin", "data": "ffff"}, {"op": "delete", "path": "b.bin"},
                      {"op": "delete", "path": "D/E"}, {"op": "verify"}, {"op": "diff"}, {"op": "create", "fmts": ["md5"]}]},
+          {"tree": {"top.bin": {"f": "01"}, "D": {"d": {"a.txt": {"f": "414141"}, "E": {"d": {"deep.bin": {"f": "0708"}}}}}},
+           # create -sf <folder>: an altered file below the named folder makes the command exit 11 like any other create
+           "steps": [{"op": "create", "fmts": ["md5"]}, {"op": "set", "path": "D/E/deep.bin", "data": "0709", "keep_mtime": True},
+                     {"op": "create", "fmts": ["md5"], "sf": ["D"]}, {"op": "create", "fmts": ["md5"], "sf": ["D/E"]}, {"op": "create", "fmts": ["md5"], "sf": ["D/E/deep.bin"]}]},
           {"tree": {"D": {"d": {"a.txt": {"f": "414141"}}}, "z.txt": {"f": "5a5a"}},
            "steps": [{"op": "create", "fmts": ["md5"], "n": True}, {"op": "rename", "path": "D", "to": "E"}, {"op": "create", "fmts": ["md5"], "n": True, "dr": True}]},
           {"tree": {"D": {"d": {}}, "z.txt": {"f": "5a5a"}},
